@@ -49,7 +49,10 @@ def run(run):
     ]
     run.rule = ("a catalogue of ~75 queries covering ~150 expression classes built in fresh interpreters under 4 PYTHONHASHSEED values, permuted construction orders and with unrelated queries in between: "
                 "names of every logical and optimized node and all graph keys must coincide; all pairs of distinct catalogue queries and single-parameter variations must have distinct names; "
-                "same query twice = same object; equal-looking inputs with different data = different names; non-trivial = every catalogue query")
+                "same query twice = same object; equal-looking inputs with different data = different names; non-trivial = every catalogue query; "
+                "histories of 1-3 queries whose mutable arguments (keyword dicts of reduction(), column lists, aggregation specs, mappings of 18 operators) are shared Python objects: "
+                "every query, after the history, must have the names, keys, tasks and result of the same query built alone from fresh literals in another interpreter, "
+                "the result of pandas, names that are the names of its operands, and a name different from the other queries of the history (harness/c08_alias.py)")
     run.proofs("PropC08.v")
     quick = run.tier == "quick"
     catalogue.write_parquet_dataset(rt.dx, os.path.join(common.BUILD, "cat_pq_c08"))     # once, before any interpreter builds the catalogue
@@ -154,4 +157,7 @@ def run(run):
     if k1 != k2:
         run.violation("DiskShuffle internal task keys differ between two materializations of one plan (uuid1)", {"kind": "known", "id": "D14"}, finding="D14")
     run.section("distinctness", catalogue_queries=len(cols), expression_classes_covered=len(classes), variations=len(variations))
+    # history dimension: unrelated queries built with the SAME argument objects (dicts / lists the caller reuses)
+    import c08_alias
+    c08_alias.run_family(run, rt, common)
     run.sample({"query": "merge-left", "name": cols["merge-left"].expr._name})
